@@ -31,9 +31,22 @@ type fakeT struct {
 	logs     []string
 	cleanups []func()
 	skipped  bool
+	buf      []byte
 }
 
 func newFakeT(name string) *fakeT { return &fakeT{name: name} }
+
+// reuse copies doc into the buffer the test keeps for all its documents and returns that buffer's prefix.
+func (f *fakeT) reuse(doc string) []byte {
+	f.mu.Lock()
+	defer f.mu.Unlock()
+	if cap(f.buf) < len(doc) {
+		f.buf = make([]byte, 0, 2*len(doc)+64)
+	}
+	f.buf = f.buf[:len(doc)]
+	copy(f.buf, doc)
+	return f.buf
+}
 
 func (f *fakeT) Helper() {}
 // Skip, Skipf and SkipNow do not return, like the methods of a real *testing.T (runtime.Goexit): whatever the library
